@@ -82,7 +82,23 @@ func (m *c04Mon) after(h *H, s *step) {
 		if ss == nil || ss.Foreign {
 			c.Violation("exchange-for-foreign-session", "step #%d: code exchange for session id %q that the service never issued", s.N, short(sid, 16))
 		}
-		states, _ := reqStates(s.Req.Path)
+		states, codes := reqStates(s.Req.Path)
+		for k, vs := range tc.Form {
+			if len(vs) > 1 {
+				// RFC 6749 3.2: request parameters must not be included more than once; a repeated parameter lets
+				// whoever controls one value (the callback's code) supply the endpoint's reading of another
+				c.Violation("exchange-with-repeated-parameter:"+k, "step #%d: the token request carries %q %d times: %q", s.N, k, len(vs), vs)
+			}
+		}
+		sent := false
+		for _, cd := range codes {
+			if cd == tc.Code {
+				sent = true
+			}
+		}
+		if !sent {
+			c.Violation("exchange-with-altered-code", "step #%d: the code received by the token endpoint %q is none of the code values %q of the callback", s.N, tc.Code, codes)
+		}
 		match := false
 		for _, st := range states {
 			if st == ss.Login.State && st != "" {
@@ -163,6 +179,15 @@ func c04Prop(c *sim.Case) {
 		ho.o.CallbackURI = "https://app.test:443/cb" // browsers leave the default port out of Host
 	}
 	ops := genOps(c, c04Profile, 40)
+	if sim.Weighted(c, "early-edited-callback", 2, 1) == 1 {
+		// an edited form of a browser's own callback arrives before the genuine one, while its login state is live:
+		// the only moment at which what the callback carries can reach the token endpoint
+		b := sim.Pick(c, "early.b", 3)
+		pre := []op{{K: "nav", B: b, Target: "/a"}, {K: "authorize", B: b},
+			{K: "attack", Att: "replay-callback", B: b, B2: b, Arg: callbackEdits[sim.Pick(c, "early.edit", len(callbackEdits))]}, {K: "callback", B: b}}
+		at := sim.Pick(c, "early.at", len(ops)+1)
+		ops = append(ops[:at:at], append(pre, ops[at:]...)...)
+	}
 	c.Logf("world: %v client=%q secret=%q callback=%q", ho, ho.o.ClientID, ho.o.ClientSecret, ho.o.CallbackURI)
 	var m *c04Mon
 	maxFaults := 0
@@ -238,7 +263,7 @@ func c04Enum(c *sim.Case) {
 func TestC04(t *testing.T) {
 	r := sim.NewRun(t, "C04")
 	defer r.Finish()
-	r.Rule = "request-level interleavings of the login flows of 3 browsers (nav / authorize at the provider / deliver callback as separate ops) plus an attacker who replays callbacks verbatim or edited (16 state/code edits: absent, empty, near-miss, duplicated both orders, re-cased name, percent-encoded name, ';' separator, swapped/unknown code) under its own or another browser's cookie, forges callbacks and plants session ids; client ids/secrets with reserved characters; both stores. The token endpoint is a strict RFC 6749/7636 monitor. Part 'enum-faults': one login whose steps are hit by every single fault position and mode (store, token endpoint, key lookup; before / after / Redis outage), followed by verbatim and re-ordered replays of its callback. Non-trivial = at least two sessions had pending logins at once and an attacker callback hit while a login was pending; distinct = distinct (store, step kinds, edits, verdicts)."
+	r.Rule = "request-level interleavings of the login flows of 3 browsers (nav / authorize at the provider / deliver callback as separate ops) plus an attacker who replays callbacks verbatim or edited (20 state/code edits: absent, empty, near-miss, duplicated both orders, re-cased name, percent-encoded name, ';' separator, swapped/unknown code, codes carrying percent-encoded '&', '=', '+', space and '%') under its own or another browser's cookie, forges callbacks and plants session ids; client ids/secrets with reserved characters; both stores. The token endpoint is a strict RFC 6749/7636 monitor (no repeated parameter, the code as presented, S256(verifier) = the session's challenge, configured redirect_uri, Basic credentials). Part 'enum-faults': one login whose steps are hit by every single fault position and mode (store, token endpoint, key lookup; before / after / Redis outage), followed by verbatim and re-ordered replays of its callback. Non-trivial = at least two sessions had pending logins at once and an attacker callback hit while a login was pending; distinct = distinct (store, step kinds, edits, verdicts)."
 	r.Assumptions = []string{"with duplicated state parameters of which one matches, either decision is accepted", "client ids never contain ':' (rejected by the loader)"}
 	parts := map[string]func(*sim.Case){"histories": c04Prop, "enum-faults": c04Enum}
 	if r.Replay != "" {
